@@ -402,6 +402,23 @@ class Intervals:
                 if ty_range(self.tys[l]) is not None:
                     cur = self.get(st, (l, ()))
                     st[(l, ())] = meet(cur, new) if cur else new
+            # a bound on `x >> c` (c constant, x unsigned) is a bound on x
+            stmts = self.blocks[b]["stmts"]
+            for i in range(len(stmts) - 1, -1, -1):
+                s_ = stmts[i]
+                if s_["k"] == "assign" and s_["lhs"] == [o["p"][0], []]:
+                    rv_ = s_["rv"]
+                    if rv_["k"] == "binop" and rv_["op"] in ("Shr", "ShrUnchecked") and rv_["a"]["k"] != "const" and not rv_["a"]["p"][1]:
+                        c_ = op_int(rv_["b"])
+                        x_ = rv_["a"]["p"][0]
+                        rng_ = ty_range(self.tys[x_])
+                        if c_ is not None and rng_ is not None and rng_[0] == 0 and new[0] >= 0 and not any(z["k"] == "assign" and z["lhs"][0] == x_ for z in stmts[i + 1:]):
+                            xb = (new[0] << c_, ((new[1] + 1) << c_) - 1, new[2], new[3])
+                            for l2 in {x_} | self.same_as(st, x_):
+                                cur = self.get(st, (l2, ()))
+                                if cur and ty_range(self.tys[l2]) is not None:
+                                    st[(l2, ())] = meet(cur, xb)
+                    break
         A = (ia[0], ia[1], ia[2], ia[3])
         C = (ic[0], ic[1], ic[2], ic[3])
         if op == "Lt":
